@@ -11,6 +11,7 @@ Every obligation is  hypotheses /\\ axiom instances /\\ not(claim)  must be unsa
       E2  exp(u) * exp(v) = 1            when u = -v
       E3  exp(v) >= exp(u) * (1 + v - u)                                  (tangent-line inequality = convexity of exp)
       E4  exp(0) = 1                      (instantiated when a term exp(u) occurs: u = 0 => exp(u) = 1)
+      E5  exp(u) >= 1 + u                 (E3 with the tangent at 0)
       L1  log(u) >= 0 when u >= 1;        log1p(u) >= 0 when u >= 0
       P1  softplus identity:  log1p(exp(u)) = u + log1p(exp(v))            when u = -v
       P2  softplus tangent:   log1p(exp(v)) >= log1p(exp(u)) + exp(u) / (1 + exp(u)) * (v - u)     (convexity of softplus)
@@ -115,6 +116,7 @@ class Gen:
             u = sx.show(e[1])
             out.append(f'(> {sx.show(e)} 0.0)')                                               # E1
             out.append(f'(=> (= {u} 0.0) (= {sx.show(e)} 1.0))')                              # E4
+            out.append(f'(>= {sx.show(e)} (+ 1.0 {u}))')                                      # E5
         for a, b in itertools.combinations(exps, 2):
             u, v = sx.show(a[1]), sx.show(b[1])
             out.append(f'(=> (= {u} (- {v})) (= (* {sx.show(a)} {sx.show(b)}) 1.0))')          # E2
